@@ -250,8 +250,14 @@ class Reference:
         filt = retry.get('exceptions')
         use_default = bool(retry.get('use_default'))
         plan = node.get('plan') or ()
+        dkwargs = dict(kwargs)                      # get_default gets the engine's kwargs ...
+        generic = node.get('generic')
+        if generic is not None:
+            kwargs = dict(kwargs)
+            kwargs.update(generic.get('defaults') or {})   # ... the body also the dependencies_default of build_node
         kd = kdigest(n, kwargs)
-        self.last_kwargs[n] = (dict(kwargs), kd)
+        dkd = kdigest(n, dkwargs)
+        self.last_kwargs[n] = (dkwargs, dkd)
         a = 1
         ex_rec = {'node': n, 'kd': kd, 'idxs': [], 'outcomes': [], 'default': False, 'delay': retry.get('delay') or 0}
         self.executions.append(ex_rec)
@@ -274,9 +280,9 @@ class Reference:
                 continue
             self.exec_attempts[n].append(a)
             if use_default:
-                self.defaults.append((n, kd))
+                self.defaults.append((n, dkd))
                 ex_rec['default'] = True
-                return Res(VAL, default_value(node, kwargs, kd))
+                return Res(VAL, default_value(node, dkwargs, dkd))
             return Res(ERR, causes=frozenset({('tok', n, kd, idx, outcome)}))
 
     def eval_mark(self, consumer, kw, mark) -> Res:
